@@ -202,7 +202,7 @@ Proof.
       { unfold write_plain in E1. destruct (alloc (base_name (c_ncvar c) (c_std c) d) w) as [nv wa] eqn:Ea.
         inversion E1; subst. eexists. split; [reflexivity|]. intros n En.
         destruct (Hg n) as [A B]; [cbn [flat_map]; rewrite En; left; reflexivity|].
-        assert (E1' : write_plain d (w, l) c = (add_var {| v_name := nv; v_dims := dims_of w (c_axes c); v_attrs := [] |} wa,
+        assert (E1' : write_plain d (w, l) c = (add_var {| v_name := nv; v_dims := dims_of w (c_axes c); v_attrs := []; v_kind := KNum |} wa,
                        l ++ [match c_type c with CMeasure => c_measure c +++ ": " +++ nv | _ => nv end])).
         { unfold write_plain. rewrite Ea. reflexivity. }
         destruct (N1 n En A B) as [EL [v [EV EN]]].
